@@ -51,6 +51,19 @@ try:
         tol = 1e-4 if rp['method'] == 'perturbative' else 2e-2
         if np.max(np.abs(got - want)) > tol:
             wit.append({'key': f'low-power:{L}km:{rp}', 'problems': [f'span loss {np.round(got, 4).tolist()} dB, budget {want:.4f} dB']})
+    # 1'. numerical method on a grid that is not uniform (a dozen lumped losses between the grid points, a length that is not a
+    # multiple of the step): the loss budget up to the discretisation error of the explicit scheme, sum over the steps of
+    # (alpha dz)^2 / 2 (tolerance: 1.5 x that bound for the nominal step)
+    for L, step in itertools.product((80.0, 67.3), (20, 50)):
+        cases += 1
+        lum = [{'position': round(3.3337 + 6.1 * k, 4), 'loss': 0.1} for k in range(12) if 3.3337 + 6.1 * k < L]
+        want = 1.0 + 0.3 + L * 0.21 + sum(l['loss'] for l in lum) + 0.4
+        got = run(Fiber, L, dict(flag=True, method='numerical', solver_spatial_resolution=step, result_spatial_resolution=10e3), 1e-9, lumped=lum)
+        alpha_step = 0.21e-3 / (10 * np.log10(np.e)) * step
+        tol = 1.5 * 10 * np.log10(np.e) * (L * 1e3 / step) * alpha_step ** 2 / 2 + 1e-4
+        if np.max(np.abs(got - want)) > tol:
+            wit.append({'key': f'low-power:numerical:{L}km:{step} m steps:{len(lum)} lumped losses between grid points',
+                        'problems': [f'span loss {np.round(got, 4).tolist()} dB, budget {want:.4f} dB, discretisation allowance {tol:.4f} dB']})
     # 1a. a lumped loss can only sit strictly inside the fibre (one at an end would be budgeted by Fiber.loss but never applied)
     from gnpy.core.exceptions import NetworkTopologyError
     for pos, ok in ((0.0, False), (80.0, False), (80.5, False), (-1.0, False), (1e-6, True), (79.999, True), (40.0, True)):
